@@ -22,6 +22,7 @@ import (
 	"fmt"
 	"hash/fnv"
 	"math/big"
+	"math/rand"
 	"os"
 	"sort"
 	"strconv"
@@ -84,8 +85,9 @@ func bndProgAddr(i int) common.Address {
 }
 
 // ---- the opcode table: byte, operand roles (top of the stack first), what it leaves
-//   roles: moff len doff (N = memory size / length of the data the opcode reads), gas (N = 2300), value (N = T's
-//   balance), word (N = 256), addr (address classes), jdest (jump destination classes)
+//
+//	roles: moff len doff (N = memory size / length of the data the opcode reads), gas (N = 2300), value (N = T's
+//	balance), word (N = 256), addr (address classes), jdest (jump destination classes)
 type bndOpInfo struct {
 	code  byte
 	roles []string
@@ -141,6 +143,16 @@ var bndOps = map[string]bndOpInfo{
 	"SHL":            {0x1b, rl("word word"), "push", "", false},
 	"SHR":            {0x1c, rl("word word"), "push", "", false},
 	"SAR":            {0x1d, rl("word word"), "push", "", false},
+	"LT":             {0x10, rl("word word"), "push", "", false},
+	"GT":             {0x11, rl("word word"), "push", "", false},
+	"SLT":            {0x12, rl("word word"), "push", "", false},
+	"SGT":            {0x13, rl("word word"), "push", "", false},
+	"EQ":             {0x14, rl("word word"), "push", "", false},
+	"ISZERO":         {0x15, rl("word"), "push", "", false},
+	"AND":            {0x16, rl("word word"), "push", "", false},
+	"OR":             {0x17, rl("word word"), "push", "", false},
+	"XOR":            {0x18, rl("word word"), "push", "", false},
+	"NOT":            {0x19, rl("word"), "push", "", false},
 }
 
 // bndTuple is one state of MCCallFramesBoundary.
@@ -376,9 +388,9 @@ func (p *bndProg) assemble(env bndEnv, dest, pdata int) (code []byte, labels map
 	}
 	nt := env.NT
 	a := newAsm()
-	a.op(opPUSH1).mark("pdata").op(0x5b).op(opPOP)                // a JUMPDEST byte that is push data
-	a.push(bndMS).push(0).push(0).op(opCALLDATACOPY)               // pre-memory
-	if p.t.RD {                                                     // context: a prior call leaves 40 bytes of return data
+	a.op(opPUSH1).mark("pdata").op(0x5b).op(opPOP)   // a JUMPDEST byte that is push data
+	a.push(bndMS).push(0).push(0).op(opCALLDATACOPY) // pre-memory
+	if p.t.RD {                                      // context: a prior call leaves 40 bytes of return data
 		a.push(0).push(0).push(0).push(0).pushBytes(bndAddrR.Bytes()).op(opGAS).op(opSTATICCALL).op(opPOP)
 	}
 	for i := len(info.roles) - 1; i >= 0; i-- {
@@ -412,7 +424,7 @@ func (p *bndProg) assemble(env bndEnv, dest, pdata int) (code []byte, labels map
 		a.op(opSTOP)
 	case "jump":
 		a.push(0x11).pushLabel("epi").op(opJUMP) // fell through
-		a.dest("dest").push(0x22)               // jumped
+		a.dest("dest").push(0x22)                // jumped
 		a.dest("epi")
 	case "none":
 		a.push(0)
@@ -433,7 +445,7 @@ func (p *bndProg) build() error {
 	if p.t.RD {
 		p.env.RDN = bndRD
 	}
-	c0, l0, err := p.assemble(bndEnv{MS: 0xffff, NC: 0xffff, RDN: 0xffff, NT: 0xffff, NX: 0xffff, Bal: 0xffff}, 0, 0)
+	c0, l0, err := p.assemble(bndEnv{MS: 0x7fff, NC: 0x7fff, RDN: 0x7fff, NT: 0x7fff, NX: 0x7fff, Bal: 0x7fff}, 0, 0)
 	if err != nil {
 		return err
 	}
@@ -502,22 +514,39 @@ var bndWatchKeys = func() []common.Hash {
 // fingerprint of the observable state: balance, code, suicide flag of every account the programs can name, the
 // storage of T under every key class, the published contract logs and creation records.  Returns also the number of
 // the platform's failure records (they are allowed to grow).
-func bndFingerprint(am *account.Manager, t common.Address, verbose bool) (string, int, string) {
-	addrs := []common.Address{addrOf["U"], bndAddrWC, bndAddrWS, bndAddrR, bndAddrD, bndAddrFresh, bndAddrMax, t,
-		crypto.CreateContractAddress(t, txHash), common.BytesToAddress([]byte{0}), common.BytesToAddress([]byte{1}),
-		common.BytesToAddress([]byte{4}), common.BytesToAddress([]byte{5}), common.BytesToAddress([]byte{9})}
+func bndFingerprint(am *account.Manager, p *bndProg, verbose bool) (string, int, string) {
+	t := p.addr
+	// the accounts this program can reach: sender, wrappers, itself, the returner, what its address operand names,
+	// the contract it may create
+	addrs := []common.Address{addrOf["U"], bndAddrWC, bndAddrWS, bndAddrR, t}
+	keys := bndWatchKeys[:2]
+	if info, ok := bndOps[p.t.Op]; ok {
+		for i, r := range info.roles {
+			if r == "addr" {
+				if b, err := p.addrOfClass(p.t.Cls[i]); err == nil {
+					addrs = append(addrs, common.BytesToAddress(b))
+				}
+			}
+		}
+		if p.t.Op == "CREATE" {
+			addrs = append(addrs, crypto.CreateContractAddress(t, txHash))
+		}
+		if p.t.Op == "SSTORE" || p.t.Op == "SLOAD" {
+			keys = bndWatchKeys
+		}
+	}
 	var sb strings.Builder
 	for _, a := range addrs {
 		ac := am.GetAccount(a)
 		code, err := ac.GetCode()
 		ch := "ERR"
 		if err == nil {
-			ch = fmt.Sprintf("%d:%x", len(code), crypto.Keccak256(code)[:6])
+			ch = fmt.Sprintf("%d:%x", len(code), ac.GetCodeHash().Bytes()[:8])
 		}
 		fmt.Fprintf(&sb, "%x b=%s c=%s d=%v|", a[:], ac.GetBalance().String(), ch, ac.GetSuicide())
 	}
 	ac := am.GetAccount(t)
-	for _, k := range bndWatchKeys {
+	for _, k := range keys {
 		v, err := ac.GetStorageState(k)
 		if err != nil {
 			sb.WriteString("ERR,")
@@ -550,7 +579,7 @@ func bndFingerprint(am *account.Manager, t common.Address, verbose bool) (string
 	if verbose {
 		s = sb.String()
 	}
-	return fmt.Sprintf("%016x", h.Sum64()), nfail, s
+	return fmt.Sprintf("%012x", h.Sum64()>>16), nfail, s
 }
 
 type bndRun struct {
@@ -619,7 +648,7 @@ func (w *world) runBnd(base common.Hash, p *bndProg, gasWord uint64, verbose boo
 			res.Parsed, res.Flag, res.GB, res.GA, res.Out = true, int(f), gb, ga, ret[128:]
 		}
 	}
-	res.Fin, res.NFail, res.Verbose = bndFingerprint(am, p.addr, verbose)
+	res.Fin, res.NFail, res.Verbose = bndFingerprint(am, p, verbose)
 	return res
 }
 
@@ -640,44 +669,58 @@ func bytesInts(b []byte) []int {
 	return o
 }
 
-func (r *bndRun) fields(info bndOpInfo) map[string]interface{} {
-	f := map[string]interface{}{"crash": r.Crash, "st": r.St, "left": gasField(r.Left), "parsed": r.Parsed, "flag": r.Flag,
-		"gb": gasField(r.GB), "ga": gasField(r.GA), "fin": r.Fin, "nf": r.NFail, "outn": len(r.Out)}
+// sat keeps a gas amount inside TLC's integers (all amounts here are below the 3 000 000 supplied unless the platform
+// invents gas - which the spec then sees as an amount above the supply)
+func sat(g uint64) int {
+	if g > 1<<30 {
+		return 1 << 30
+	}
+	return int(g)
+}
+
+// fields: <<panic, status ("p" = the wrapper returned and its output has the agreed shape), gas left, success flag of
+// T's frame, gas before / after the call of T, state fingerprint, failure records, length and fingerprint of T's output>>
+func (r *bndRun) fields() []interface{} {
+	st := r.St
+	if st == "ok" && r.Parsed {
+		st = "p"
+	}
 	h := fnv.New64a()
 	h.Write(r.Out)
-	f["fp"] = fmt.Sprintf("%016x", h.Sum64())
-	return f
+	return []interface{}{r.Crash, st, sat(r.Left), r.Flag, sat(r.GB), sat(r.GA), r.Fin, r.NFail, len(r.Out), fmt.Sprintf("%012x", h.Sum64()>>16)}
 }
 
 // observables of the first run, parsed out of T's return data: for a program that reaches its epilogue
 // memory ++ result word ++ MSIZE; for RETURN / REVERT the returned bytes themselves.
-func bndObservables(info bndOpInfo, r *bndRun) map[string]interface{} {
-	o := map[string]interface{}{"shape": "none", "ms": -1, "res": []int{}, "mem": []int{}}
-	if !r.Parsed {
-		return o
-	}
+func bndObservables(info bndOpInfo, r *bndRun, data []byte) []interface{} {
+	shape, ms, res, mem := "none", -1, []int{}, []int{}
 	out := r.Out
 	switch {
+	case !r.Parsed:
 	case info.kind == "halt":
-		o["shape"] = "raw"
+		shape = "raw"
 		if info.mem && len(out) <= 4096 {
-			o["mem"] = bytesInts(out)
+			mem = bytesInts(out)
 		}
 	case r.Flag == 1 && len(out) >= 64 && len(out)%32 == 0:
-		ms, ok := word64(out[len(out)-32:])
-		if !ok || ms != uint64(len(out)-64) {
-			o["shape"] = "bad"
-			return o
+		m, ok := word64(out[len(out)-32:])
+		if !ok || m != uint64(len(out)-64) {
+			shape = "bad"
+			break
 		}
-		o["shape"], o["ms"] = "epi", int(ms)
-		o["res"] = bndDigits(out[len(out)-64 : len(out)-32])
-		if info.mem && ms <= 4096 {
-			o["mem"] = bytesInts(out[:ms])
+		shape, ms = "epi", int(m)
+		res = bndDigits(out[len(out)-64 : len(out)-32])
+		if info.mem && m <= 4096 {
+			mem = bytesInts(out[:m])
 		}
 	case r.Flag == 1:
-		o["shape"] = "bad"
+		shape = "bad"
 	}
-	return o
+	d := []int{}
+	if len(mem) > 0 && data != nil {
+		d = bytesInts(data)
+	}
+	return []interface{}{shape, ms, res, mem, d}
 }
 
 func bndTupleOf(st map[string]tla.Value) bndTuple {
@@ -717,17 +760,27 @@ func (w *world) bndBatchRun(progs []*bndProg, seed int64, emit func(map[string]i
 			hh := fnv.New32a()
 			fmt.Fprintf(hh, "g/%d/%s", seed, p.t.String())
 			gasWord = uint64(hh.Sum32()) % used
-			if hh.Sum32()%4 == 0 {
-				gasWord = used - 1
+			switch hh.Sum32() % 8 {
+			case 0, 4:
+				gasWord = used - 1 // the last instruction starves
+			case 1:
+				gasWord = used // exactly what the ample run burnt
 			}
 		}
-		pre, prenf, prev := bndFingerprint(account.NewManager(base, w.db), p.addr, verbose)
+		pre, prenf, prev := bndFingerprint(account.NewManager(base, w.db), p, verbose)
 		r1 := w.runBnd(base, p, gasWord, verbose)
 		r2 := w.runBnd(base, p, gasWord, false)
-		row := map[string]interface{}{"ev": "Bnd", "op": p.t.Op, "cls": p.t.Cls, "rd": p.t.RD, "static": p.t.Static, "gas": p.t.Gas,
-			"env": map[string]int{"ms": p.env.MS, "nc": p.env.NC, "rdn": p.env.RDN, "nt": p.env.NT, "nx": p.env.NX, "bal": p.env.Bal},
-			"g": gasField(gasWord), "top": gasField(bndTopGas), "pre": pre, "prenf": prenf,
-			"r1": r1.fields(info), "r2": r2.fields(info), "obs": bndObservables(info, r1)}
+		// the code a copy reads, where the spec cannot know it (own code, R's code)
+		var data []byte
+		switch {
+		case p.t.Op == "CODECOPY" || (p.t.Op == "EXTCODECOPY" && p.t.Cls[0] == "self"):
+			data = p.code
+		case p.t.Op == "EXTCODECOPY" && (p.t.Cls[0] == "R" || p.t.Cls[0] == "dirtyR"):
+			data = bndCodeR()
+		}
+		row := map[string]interface{}{"ev": "Bnd", "op": p.t.Op, "cls": p.t.Cls, "x": []interface{}{p.t.RD, p.t.Static, p.t.Gas},
+			"n": []int{p.env.NT, p.env.NX}, "g": sat(gasWord), "pre": []interface{}{pre, prenf},
+			"r1": r1.fields(), "r2": r2.fields(), "obs": bndObservables(info, r1, data)}
 		if verbose {
 			row["code"] = fmt.Sprintf("%x", p.code)
 			row["prestate"], row["finstate"] = prev, r1.Verbose
@@ -765,9 +818,15 @@ func driveBoundary(args []string) error {
 			return err
 		}
 		labels := append([]string(nil), g.Labels...)
-		sort.Strings(labels) // the order of the dump depends on TLC's worker interleaving
-		for i, lab := range labels {
-			if i%sn != si {
+		sort.Strings(labels)                                                                                             // the order of the dump depends on TLC's worker interleaving
+		rand.New(rand.NewSource(1)).Shuffle(len(labels), func(i, j int) { labels[i], labels[j] = labels[j], labels[i] }) // same in every shard
+		k := 0
+		for _, lab := range labels {
+			if !strings.Contains(lab, `stage = "tuple"`) { // the heads of the enumeration
+				continue
+			}
+			k++
+			if k%sn != si {
 				continue
 			}
 			st, err := tla.ParseState(lab)
@@ -797,15 +856,21 @@ func driveBoundary(args []string) error {
 	bw := bufio.NewWriterSize(wr, 1<<20)
 	defer bw.Flush()
 	enc := json.NewEncoder(bw)
-	if err := enc.Encode(map[string]interface{}{"ev": "reset", "beh": si, "step": 0}); err != nil {
-		return err
+	// a "reset" line (the sizes of the setup) every 32 rows: a rejected row is reported with the rows since the last one
+	reset := func(k int) error {
+		return enc.Encode(map[string]interface{}{"ev": "reset", "beh": fmt.Sprintf("%d.%d", si, k), "ms": bndMS, "nc": bndNC, "rdl": bndRD, "bal": bndBal,
+			"top": bndTopGas, "ample": bndAmple})
 	}
 	w := &world{tag: fmt.Sprintf("bnd%d_%d", *seed, si)}
 	defer w.close()
 	step := 0
 	emit := func(row map[string]interface{}) error {
+		if step%32 == 0 {
+			if err := reset(step / 32); err != nil {
+				return err
+			}
+		}
 		step++
-		row["beh"], row["step"] = si, step
 		return enc.Encode(row)
 	}
 	for i := 0; i < len(tuples); i += bndBatch {
